@@ -30,10 +30,17 @@ RULE = ("cases: for every modulus 2..=64 every operand pair x {+,-,*,/,==, assig
         "NON-canonical i64 (new / pair / io) under M1, M2, M2; un under M1, the same on a fresh thread under M2, then on the main thread; the same history under M1, M2, M2. "
         "Exponents added: 255..257, 65535..65537, 2^32 + small, 2^48+1, 2^53-1..2^53+1, 2^62, 2^63-1, 2^64-2^32, random k*2^s + small. Second build profile `debug` "
         "(debug_assert!, cfg(debug_assertions)) on a lighter version of every stream. "
+        "wave 5: 24 more compiled-in moduli with special number-theoretic structure - Carmichael numbers (561, 1105, 1729, 2465, 294409, 56052361, 1299963601), "
+        "the Fermat pseudoprime 341, strong pseudoprimes to {2} (2047, 3277, 4033), to {2,3} (1373653, 1530787) and ALL below 2^31 to {2,3,5} (25326001, 161304001, "
+        "960946321, 1157839381; none below 2^31 passes {2,3,5,7}), prime squares / cubes (841, 2197, 2209, 46337^2, 1289^3, Wieferich 1093^2 and 3511^2) - each with pow for "
+        "bases 2,3,5,7,11,13,17,19, 0, 1, M-1, M-2, (M+1)/2, every prime factor p of M, p+1, M/p, a random multiple of p, random residues, two non-canonical arguments x "
+        "~50 structure exponents (M-2..M+1, 2(M-1), 3(M-1), (M-1)/2, (M-1)^2, phi(M) and lambda(M) +-1 and their multiples, the odd part of M-1 and its doublings, random "
+        "k(M-1)+r and k*lambda+r up to 2^64, multiples of M-1 / phi / lambda next to u64::MAX; all of them for the small prime bases, a rotating third otherwise), inv of every base, "
+        "quotients by the first 5 bases, constants, boundary constructor arguments and 6 random histories whose pow steps draw from these exponents. "
         "non-trivial = distinct in-domain case with at least one argument of magnitude > 1")
 ASSUMPTIONS = [
     "the Lean model of rlib_mint is hand-written; it is tied to the code by running both on the same cases",
-    "Modular<M> needs M at compile time: the correspondence covers the compiled-in list of 103 in-domain moduli (2..=64 and 40 large ones; the theorems cover all 2 <= M < 2^31)",
+    "Modular<M> needs M at compile time: the correspondence covers the compiled-in list of 127 in-domain moduli (2..=64, 40 large ones and 24 with special number-theoretic structure; the theorems cover all 2 <= M < 2^31)",
     "wave 3: in a `chain` case the harness itself compares the ways of copying a value (Clone::clone, clone_from, Copy, containers) and the two directions of == / != with each other and prints a "
     "*-MISMATCH / EQ-INCONSISTENT token in place of the value (the model has ONE step `ident` for all of them); the value of every step, inverses and quotients included, is pinned by the "
     "spec side (specInv: Bezout recursion over unbounded integers, proved equal to the i32 loop for coprime operands - theorems inv_value, step_spec, chain_spec), not by a harness oracle",
